@@ -46,16 +46,13 @@ func panicSig(p *nd.Panic) string {
 	return sig + ":" + kind
 }
 
-// pad brings the choice vector to a fixed length with single-alternative
-// points.  The driver keeps, per signature, the violation with the shortest
-// vector across all parts but replays it in the first part that showed the
-// signature; padding the later parts makes the shortest vector always come
-// from the earliest part (tree < header < sequence < malformed < size), which
-// also is the smallest input.
-func pad(c *nd.Ctx, n int) {
-	for len(c.Vector()) < n {
-		c.Choose(1, "pad")
-	}
+// rank charges a later part a fixed number of deviations (more than any
+// earlier part can spend), so that the violation the driver keeps per
+// signature (lowest cost first) always comes from the earliest part that shows
+// it, which is also the part the driver replays it in.  The alternative 0 of
+// the point is not an execution (skipped).
+func rank(c *nd.Ctx, r int) bool {
+	return c.ChooseCost(2, "part-rank", r) == 1
 }
 
 // check runs one input and applies the oracle.
@@ -79,10 +76,22 @@ func check(c *nd.Ctx, rc runCfg, what, input string) nd.Result {
 		return res
 	}
 	var pn *nd.Panic
-	ro := rc.run(input, func(s *xmpp.Session, h xmpp.Handler) (err error) {
-		pn = nd.Catch(func() { err = s.Serve(h) })
-		return err
+	var blockedAt, dump string
+	ro := rc.run(input, func(s *xmpp.Session, h xmpp.Handler) (err error, wedged bool) {
+		done := make(chan struct{})
+		go func() {
+			defer close(done)
+			pn = nd.Catch(func() { err = s.Serve(h) })
+		}()
+		blockedAt, dump = await(done)
+		if blockedAt != "" {
+			return nil, true // err belongs to the parked goroutine
+		}
+		return err, false
 	})
+	if blockedAt != "" {
+		return fail("serve:blocked-forever@"+blockedAt, "Serve never returns: every goroutine is parked and nothing is left that could wake one of them\n%s", dump)
+	}
 	if pn != nil {
 		return fail(panicSig(pn), "Serve panicked: %s\n%s", pn.Value, pn.Stack)
 	}
@@ -112,7 +121,7 @@ var preVals = []string{"", "x", " \n", `<unknown xmlns="urn:unknown"/>`}
 
 // treeBody: every registered (kind, type, payload) pattern with the default
 // header, content = every forest of <= n nodes.
-func treeBody(n int, only func(p *pkgSpec) bool) nd.Body {
+func treeBody(only func(p *pkgSpec) bool) nd.Body {
 	var idx []int
 	for i := range pkgs {
 		if only(&pkgs[i]) {
@@ -123,11 +132,8 @@ func treeBody(n int, only func(p *pkgSpec) bool) nd.Body {
 		p := &pkgs[idx[c.Choose(len(idx), "package")]]
 		r := &p.roots[c.Choose(len(p.roots), "pattern")]
 		typ := r.types[c.Choose(len(r.types), "type")]
-		tg := &treeGen{c: c, p: p, budget: n}
-		pre := preVals[c.Choose(len(preVals), "before-payload")]
-		if pre != "" {
-			tg.budget--
-		}
+		tg := &treeGen{c: c, p: p}
+		pre := preVals[c.ChooseCost(len(preVals), "before-payload", 1)]
 		nodes := []*tnode{tg.element(&r.el, true)}
 		// what follows the payload: text, an unknown element or another payload
 		// of the same package and stanza kind
@@ -147,12 +153,11 @@ func treeBody(n int, only func(p *pkgSpec) bool) nd.Body {
 			}
 		}
 		lastText := false
-		for tg.budget > 0 {
-			k := c.Choose(3+len(post), "after-payload")
+		for tg.left() > 0 {
+			k := c.ChooseCost(3+len(post), "after-payload", 1)
 			if k == 0 {
 				break
 			}
-			tg.budget--
 			switch k {
 			case 1, 2:
 				if lastText {
@@ -177,10 +182,13 @@ func treeBody(n int, only func(p *pkgSpec) bool) nd.Body {
 // headerBody: every payload x every stanza type x from x to x id x namespace x
 // handler configuration x payload spelling; content of <= n nodes where
 // namespace, configuration and spelling are the defaults.
-func headerBody(n int) nd.Body {
+func headerBody(r0 int) nd.Body {
 	type hc struct{ cfg, cb int }
 	hcs := []hc{{cfgFull, 0}, {cfgFull, 1}, {cfgNil, 0}, {cfgEmpty, 0}}
 	return func(c *nd.Ctx) nd.Result {
+		if !rank(c, r0) {
+			return nd.Result{Skip: true}
+		}
 		p := &pkgs[c.Choose(len(pkgs), "package")]
 		r := &p.roots[c.Choose(len(p.roots), "pattern")]
 		types := allTypes[r.kind]
@@ -189,13 +197,11 @@ func headerBody(n int) nd.Body {
 		h.from = fromVals[c.Choose(len(fromVals), "from")]
 		h.to = toVals[c.Choose(len(toVals), "to")]
 		h.id = idVals[c.Choose(len(idVals), "id")]
+		h.lang = []string{absent, "en", "empty"}[c.Choose(3, "xml:lang")]
 		ns := nss[c.Choose(2, "ns")]
 		cf := hcs[c.Choose(len(hcs), "handler-config")]
 		spelling := c.Choose(3, "payload-spelling") // 0 default namespace, 1 prefixed, 2 no payload at all
-		tg := &treeGen{c: c, p: p}
-		if ns == stanza.NSClient && cf.cfg == cfgFull && cf.cb == 0 && spelling == 0 {
-			tg.budget = n
-		}
+		tg := &treeGen{c: c, p: p, off: !(ns == stanza.NSClient && cf.cfg == cfgFull && cf.cb == 0 && spelling == 0)}
 		var nodes []*tnode
 		if spelling != 2 {
 			root := tg.element(&r.el, true)
@@ -209,7 +215,6 @@ func headerBody(n int) nd.Body {
 		if cf.cfg == cfgFull {
 			rc.app = p.app
 		}
-		pad(c, 20)
 		return check(c, rc, p.name+"/"+r.kind+"/"+r.el.name.Local, stanzaDoc(h, ns, "", nodes)+streamEnd)
 	}
 }
@@ -226,9 +231,18 @@ var genericPool = func() []string {
 // seqBody: sequences of k stanzas from the package's reduced pool (plus the
 // generic pool), with and without the application state the package's tables
 // depend on.
-func seqBody(k int) nd.Body {
+func seqBody(k, r0 int, only string, app int) nd.Body {
+	var idx []int
+	for i := range pkgs {
+		if only == "" || pkgs[i].name == only {
+			idx = append(idx, i)
+		}
+	}
 	return func(c *nd.Ctx) nd.Result {
-		p := &pkgs[c.Choose(len(pkgs), "package")]
+		if !rank(c, r0) {
+			return nd.Result{Skip: true}
+		}
+		p := &pkgs[idx[c.Choose(len(idx), "package")]]
 		pool := p.pool
 		if p.name != "generic" {
 			pool = append(append([]string{}, p.pool...), genericPool...)
@@ -237,15 +251,80 @@ func seqBody(k int) nd.Body {
 		rc.ns = nss[c.Choose(2, "ns")]
 		rc.cb = c.Choose(2, "callbacks")
 		if p.app != 0 && c.Choose(2, "application-state") == 0 {
-			rc.app = p.app
+			rc.app = p.app | app
 		}
 		var b strings.Builder
 		for i := 0; i < k; i++ {
 			b.WriteString(pool[c.Choose(len(pool), "stanza")])
 		}
 		b.WriteString(streamEnd)
-		pad(c, 24)
 		return check(c, rc, p.name+"/sequence", b.String())
+	}
+}
+
+// Children of one message / presence drawn from all packages: the mux calls a
+// handler per child, each over the whole stanza.
+var msgSnips = []string{
+	"",
+	"x",
+	`<body>hi</body>`,
+	`<unknown xmlns='urn:unknown'><data xmlns='` + nsIBB + `'/></unknown>`,
+	`<data xmlns='` + nsIBB + `' seq='0' sid='s1'>aGk=</data>`,
+	`<result xmlns='` + nsMAM + `' queryid='q1' id='a1'>` + fwdMsg + `</result>`,
+	`<result xmlns='` + nsMAM + `' queryid='other'>` + fwdMsg + `</result>`,
+	`<received xmlns='` + nsReceipts + `' id='r1'/>`,
+	`<request xmlns='` + nsReceipts + `'/>`,
+	`<x xmlns='` + nsMUCUser + `'><invite to='a@example.org'><reason>why</reason></invite></x>`,
+	`<x xmlns='` + nsConf + `' jid='room@conf.example.net'/>`,
+	`<received xmlns='` + nsCarbons + `'>` + fwdMsg + `</received>`,
+	`<sent xmlns='` + nsCarbons + `'/>`,
+	`<error type='cancel'><item-not-found xmlns='` + nsStanzaErr + `'/></error>`,
+}
+
+var presSnips = []string{
+	"",
+	"x",
+	`<show>away</show>`,
+	`<unknown xmlns='urn:unknown'/>`,
+	`<x xmlns='` + nsMUCUser + `'><item affiliation='owner' role='moderator'/><status code='110'/></x>`,
+	`<x xmlns='` + nsMUCUser + `'><item jid='@@'/></x>`,
+	`<c xmlns='` + nsCaps + `' hash='sha-1' node='http://example.org/c' ver='QgayPKawpkPSDYmwT/WM94uAlu0='/>`,
+	`<c xmlns='` + nsCaps + `' hash='bogus'/>`,
+	`<error type='cancel'><item-not-found xmlns='` + nsStanzaErr + `'/></error>`,
+}
+
+func mixedBody(k, r0 int) nd.Body {
+	return func(c *nd.Ctx) nd.Result {
+		if !rank(c, r0) {
+			return nd.Result{Skip: true}
+		}
+		h := header{kind: []string{"message", "presence"}[c.Choose(2, "kind")], from: peerFull, to: ownFull, id: "i1"}
+		snips := msgSnips
+		if h.kind == "presence" {
+			snips = presSnips
+		}
+		types := allTypes[h.kind]
+		h.typ = types[c.Choose(len(types), "type")]
+		rc := runCfg{ns: stanza.NSClient, cfg: cfgFull}
+		if c.Choose(2, "application-state") == 0 {
+			rc.app = appIBB | appHistory | appReceipts | appMUC
+		}
+		var b strings.Builder
+		h.open(&b)
+		prev := "<"
+		for i := 0; i < k; i++ {
+			sn := snips[c.Choose(len(snips), "child")]
+			if sn == "x" && prev == "x" {
+				return nd.Result{Skip: true} // adjacent text is one text node
+			}
+			if sn != "" {
+				prev = sn
+			}
+			b.WriteString(sn)
+		}
+		h.close(&b)
+		b.WriteString(streamEnd)
+		return check(c, rc, h.kind+"/mixed-children", b.String())
 	}
 }
 
@@ -313,8 +392,11 @@ func endTags(s string) [][2]int {
 	return out
 }
 
-func malformedBody() nd.Body {
+func malformedBody(r0 int) nd.Body {
 	return func(c *nd.Ctx) nd.Result {
+		if !rank(c, r0) {
+			return nd.Result{Skip: true}
+		}
 		p := &pkgs[c.Choose(len(pkgs), "package")]
 		item := p.pool[c.Choose(len(p.pool), "stanza")]
 		rc := runCfg{ns: stanza.NSClient, cfg: cfgFull, app: p.app}
@@ -339,15 +421,17 @@ func malformedBody() nd.Body {
 			et := ets[c.Choose(len(ets), "end-tag")]
 			input = item[:et[0]] + "nope" + item[et[1]:] + follow
 		}
-		pad(c, 28)
 		return check(c, rc, p.name+"/malformed", input)
 	}
 }
 
 // sizeBody: large and deeply nested payloads.
-func sizeBody(scale int) nd.Body {
+func sizeBody(scale, r0 int) nd.Body {
 	shapes := []string{"deep-unknown", "deep-own", "siblings", "text", "attributes", "attribute-value", "name", "deep-text"}
 	return func(c *nd.Ctx) nd.Result {
+		if !rank(c, r0) {
+			return nd.Result{Skip: true}
+		}
 		p := &pkgs[c.Choose(len(pkgs), "package")]
 		r := &p.roots[c.Choose(len(p.roots), "pattern")]
 		typ := r.types[c.Choose(len(r.types), "type")]
@@ -398,7 +482,6 @@ func sizeBody(scale int) nd.Body {
 		h.close(&b)
 		b.WriteString(follow)
 		rc := runCfg{ns: ns, cfg: cfgFull, app: p.app}
-		pad(c, 32)
 		return check(c, rc, p.name+"/"+r.kind+"/"+r.el.name.Local+"/size:"+shape, b.String())
 	}
 }
@@ -413,15 +496,15 @@ func init() {
 		Rule: "first half of C09 (peer input to a served session). Every case is one real xmpp.Session (public API) over a finite scripted input, served by a mux carrying every handler the library provides " +
 			"(ibb, history, receipts, muc client + direct invites, disco info/items with the whole-mux feature/identity/item/form walk, disco caps, roster, blocklist, carbons, xtime, version, ping, bin, a nested mux; bookmarks/crypto/commands/forward/oob/upload/styling feature iterators) with trivial application callbacks. " +
 			"tree: for every registered (kind, type, payload) pattern, the stanza whose children are [text|white space|unknown element]? payload [text|white space|unknown element|another payload of the package]* where payloads carry every tree of the package's own elements (each with its own attributes set to valid/empty/junk, an unknown attribute, at the payload root also xml:lang and a prefixed attribute), an unknown element, text, white space and package specific text, all together <= N nodes (quick 3, thorough 4), duplicate attributes and adjacent text nodes excluded. " +
-			"header: every payload x every stanza type (also missing, empty, undefined) x from {peer, missing, own bare, not a JID, empty} x to {own, missing, not a JID} x id {set, missing, empty} x client/server namespace x {full mux, full mux with failing callbacks, nil handler, empty mux} x {default-namespace payload, prefixed payload, no payload}, with payload trees of <= M nodes (quick 1, thorough 2) under the default namespace/config/spelling. " +
-			"sequence: every sequence of K (quick 2, thorough 3) stanzas from the package's reduced pool plus the generic pool, x namespace x callbacks x application state (IBB listener being accepted on / history query q1 being iterated / receipt r1 awaited / room being joined) on or off. " +
+			"header: every payload x every stanza type (also missing, empty, undefined) x from {peer, missing, own bare, not a JID, empty} x to {own, missing, not a JID} x id {set, missing, empty} x xml:lang {missing, en, empty} x client/server namespace x {full mux, full mux with failing callbacks, nil handler, empty mux} x {default-namespace payload, prefixed payload, no payload}, with payload trees of <= M nodes (quick 1, thorough 2) under the default namespace/config/spelling. " +
+			"sequence: every sequence of K (quick 2, thorough 3) stanzas from the package's reduced pool plus the generic pool, x namespace x callbacks x application state (IBB listener being accepted on / history query q1 being iterated / receipt r1 awaited / room being joined) on or off; every message/presence with K+1 children drawn from the payloads of all packages (text, body, error included) x every type x application state; the IBB pool also with a listener whose application earlier gave up Listener.Expect for (peer, s1). " +
 			"malformed: every pool stanza cut at every byte offset (EOF inside), with each of 14 constructs (comment, PI, directive, stream error, stream restart, stream features, closing stream tag, stray end tag, CDATA, undefined entity, unbound prefix, NUL, duplicate attribute, unquoted attribute) inserted at every tag boundary, and with every end tag replaced by a different one. " +
 			"size: every pattern x {10100-deep nesting (unknown / own element / with text), 5000 siblings, 400 kB text, 5000 attributes, 400 kB attribute value, 100 kB element name}. " +
-			"Oracle: no panic (recovered around Serve; library goroutines and runtime fatal errors through worker crash isolation), Serve returns (nil or any error), everything the session wrote parses as XML after the stream header. Non-trivial = distinct (configuration, input).",
+			"Oracle: no panic (recovered around Serve; library goroutines and runtime fatal errors through worker crash isolation), Serve returns (nil or any error; a Serve that blocks for good with every goroutine of the worker asleep is reported by the Go runtime as a deadlock and counted as a crash inside the library), everything the session wrote parses as XML after the stream header. Non-trivial = distinct (configuration, input).",
 		Assumptions: []string{
 			"'any byte string' is covered through this structured alphabet (token trees over each package's vocabulary), the byte-offset truncations and the listed malformed constructs only",
 			"application callbacks are trivial: they read the token stream they are handed to its end and return nil, a stanza error or a plain error; the application accepts IBB connections, iterates its history query without reading the message streams, and does nothing after a join or a receipt",
-			"a Serve that never returns cannot be expressed as a violation without a clock: it shows as a hung worker (engine error) and is investigated by hand",
+			"a Serve that never returns is not judged by a clock: when every goroutine of the worker is asleep the Go runtime reports the deadlock and the driver counts the crash (signature crash:fatal@<first library frame>); a Serve blocked while some other goroutine stays runnable would show as a hung worker (engine error) and be investigated by hand",
 			"request helpers that parse a reply (second half of the property) are not part of this check",
 		},
 		Parts: func(tier string) []drv.Part {
@@ -431,13 +514,26 @@ func init() {
 				n, m, k, scale = 4, 2, 3, 2
 				b = 18 * time.Minute
 			}
+			// deviation accounting: a tree node costs 1; later parts start at a
+			// rank above everything an earlier part can spend (see rank)
+			rh := n + 1
+			rs := rh + m + 1
+			rm := rs + 1
+			rz := rm + 1
+			rx := rz + 1
+			rq := rx + 1
+			// one P per worker: the observer's Gosched hands the processor straight
+			// to Serve's goroutine (the 16 workers are the parallelism)
+			oneP := []string{"GOMAXPROCS=1"}
 			return []drv.Part{
-				{Name: "tree-stateless", Desc: fmt.Sprintf("payload forests of <= %d nodes, handlers without application state", n), Body: treeBody(n, withoutApp), CutDepth: 4, Budget: b, CrashIsolate: true},
-				{Name: "tree-stateful", Desc: fmt.Sprintf("payload forests of <= %d nodes, handlers with tables (ibb, history, receipts, muc) and their application state", n), Body: treeBody(n, withApp), CutDepth: 4, Budget: b, CrashIsolate: true},
-				{Name: "header", Desc: fmt.Sprintf("stanza types x from x to x id x namespace x handler configuration x spelling; payload trees of <= %d nodes", m), Body: headerBody(m), CutDepth: 4, Budget: b, CrashIsolate: true},
-				{Name: "sequence", Desc: fmt.Sprintf("sequences of %d pool stanzas", k), Body: seqBody(k), CutDepth: 4, Budget: b, CrashIsolate: true},
-				{Name: "malformed", Desc: "truncations, inserted stream-level/ill-formed constructs, mismatched end tags", Body: malformedBody(), CutDepth: 3, Budget: b, CrashIsolate: true},
-				{Name: "size", Desc: "large and deeply nested payloads", Body: sizeBody(scale), CutDepth: 3, Budget: b, CrashIsolate: true},
+				{Name: "tree-stateless", Desc: fmt.Sprintf("payload forests of <= %d nodes, handlers without application state", n), Body: treeBody(withoutApp), MaxDev: n, CutDepth: 4, Budget: b, CrashIsolate: true, Env: oneP},
+				{Name: "tree-stateful", Desc: fmt.Sprintf("payload forests of <= %d nodes, handlers with tables (ibb, history, receipts, muc) and their application state", n), Body: treeBody(withApp), MaxDev: n, CutDepth: 4, Budget: b, CrashIsolate: true, Env: oneP},
+				{Name: "header", Desc: fmt.Sprintf("stanza types x from x to x id x namespace x handler configuration x spelling; payload trees of <= %d nodes (deviations = %d for the part + nodes)", m, rh), Body: headerBody(rh), MaxDev: rh + m, CutDepth: 5, Budget: b, CrashIsolate: true, Env: oneP},
+				{Name: "sequence", Desc: fmt.Sprintf("sequences of %d pool stanzas (deviations = %d for the part)", k, rs), Body: seqBody(k, rs, "", 0), MaxDev: rs, CutDepth: 5, Budget: b, CrashIsolate: true, Env: oneP},
+				{Name: "mixed", Desc: fmt.Sprintf("messages and presences with %d children drawn from the payloads of all packages, every type, with and without application state (deviations = %d for the part)", k+1, rq), Body: mixedBody(k+1, rq), MaxDev: rq, CutDepth: 5, Budget: b, CrashIsolate: true, Env: oneP},
+				{Name: "malformed", Desc: fmt.Sprintf("truncations, inserted stream-level/ill-formed constructs, mismatched end tags (deviations = %d for the part)", rm), Body: malformedBody(rm), MaxDev: rm, CutDepth: 4, Budget: b, CrashIsolate: true, Env: oneP},
+				{Name: "size", Desc: fmt.Sprintf("large and deeply nested payloads (deviations = %d for the part)", rz), Body: sizeBody(scale, rz), MaxDev: rz, CutDepth: 4, Budget: b, CrashIsolate: true, Env: oneP},
+				{Name: "ibb-expect", Desc: fmt.Sprintf("sequences of %d pool stanzas for an IBB listener whose application earlier gave up an Expect call for stream s1 of the peer (deviations = %d for the part); a Serve blocked forever shows as the runtime's deadlock report", k, rx), Body: seqBody(k, rx, "ibb", appIBBGaveUp), MaxDev: rx, CutDepth: 5, Budget: b, CrashIsolate: true, Env: oneP},
 			}
 		},
 	})
